@@ -21,8 +21,12 @@ func nameSpaceEvaluation(
 
 	t = base.MakeIdentifier(class)
 
+	// (a name without a lower-case letter, 'Outer::X', is a class when the
+	// namespace defines a class of that name, and a constant otherwise)
+	isDefinedClass := base.IsClassDefinedIn(base.CalculateFrame(frame, parentClass), class)
+
 	switch {
-	case t.IsClassIdentifier():
+	case t.IsClassIdentifier() || isDefinedClass:
 		ctx.SetFrame(base.CalculateFrame(frame, parentClass))
 		t = base.MakeClass(t.ToString())
 
